@@ -11,7 +11,7 @@ from symv.dense import describe, embed, phases_of
 
 META = {
     "level": "exploration",
-    "level_text": "(i) every element returned by build_local_fermionic_elements / _dense for random term lists and bases equals the vacuum expectation value computed in an explicit Jordan-Wigner Fock space (exact arithmetic); (ii) for complete local bases and charge-conserving Hermitian term sets the linear map psi -> tensordot(G, psi) on all basis state tensors of every charge is Hermitian, has exactly the Fock spectrum, and maps compose as the operators do (M_B M_A = M_BA) - three statements invariant under the one diagonal sign convention the property allows; (iii) the five model builders equal the documented formula evaluated in the Fock model, in every supported symmetry, with no weight outside charge-conserving sectors. Seeded random exploration.",
+    "level_text": "(i) every element returned by build_local_fermionic_elements / _dense for random term lists and bases equals the vacuum expectation value computed in an explicit Jordan-Wigner Fock space (exact arithmetic); (ii) for complete local bases and charge-conserving Hermitian term sets the linear map psi -> tensordot(G, psi) on all basis state tensors of every charge is Hermitian, has exactly the Fock spectrum, and maps compose as the operators do (M_B M_A = M_BA) - three statements invariant under the one diagonal sign convention the property allows; (iii) the five model builders equal the documented formula evaluated in the Fock model, in every supported symmetry, with no weight outside charge-conserving sectors. Seeded random exploration. Later additions: exactly cancelling term lists, half filling (mu = U/2), coefficients as int / numpy scalar / shared 0-d arrays that must come back unchanged, editing the returned table and repeating the request.",
     "technique": "runtime monitoring: reference-model oracle (Jordan-Wigner Fock space), convention-invariant law checks on the induced linear map",
     "rule": (
         "one evaluation = one builder call compared with the Fock model (elements), or one operator array applied to all basis states (map laws), or one model builder call. "
